@@ -897,7 +897,13 @@ fn infer_inner(rng: &mut Rng, tree: &Tree, cfg: &InferCfg, depth: u32, root: boo
             if !kvs.is_empty() && rng.chance(1, 4) {
                 let tys: Vec<Ty> = kvs.iter().map(|(_, x)| infer(rng, x, &InferCfg { mismatch: cfg.mismatch, spanned: 0, any: 0 }, depth + 1, false)).collect();
                 if let Some(u) = unify_all(&tys) {
-                    let kt = if cfg.spanned > 0 && rng.chance(1, 2) { KeyTy::SpannedStr } else { KeyTy::Str };
+                    let kt = if cfg.spanned > 0 && rng.chance(1, 2) {
+                        if rng.chance(1, 3) { KeyTy::NewtypeSpanned("Located".into()) } else { KeyTy::SpannedStr }
+                    } else if rng.chance(1, 8) {
+                        KeyTy::NewtypeStr("KeyName".into())
+                    } else {
+                        KeyTy::Str
+                    };
                     return Ty::Map(kt, Box::new(u));
                 }
             }
